@@ -25,7 +25,9 @@
 (* Source stream values carry, besides k/e (all dictionary entries,         *)
 (* /Filter and /DecodeParms included, as ordinary slots) the identity of    *)
 (* the decoded bytes `body` and cf \in {"default", "identity", "named"}:    *)
-(* no leading /Crypt filter, /Crypt /Identity, /Crypt with a named filter.  *)
+(* no leading /Crypt filter, /Crypt /Identity, /Crypt with a named filter;  *)
+(* cfi = the /Crypt name and its parameters are written as INDIRECT first   *)
+(* elements of the /Filter and /DecodeParms arrays.                         *)
 (*                                                                          *)
 (* Excluded (stated, and excluded by the generators): Redirect after a      *)
 (* copy, Redirect of an object that a reference chain passes through (the   *)
@@ -48,10 +50,18 @@ CONSTANTS
   RecordAfter,           \* mutation: trans recorded after recursing
   DropParms,             \* mutation: the copied stream loses /DecodeParms
   VerbatimAlways,        \* mutation: stream bytes reused whatever the encryption
+  Twin,                  \* function 1..N -> 1..N: Twin[n] # n says that n is a reference with the object
+                         \* NUMBER of Twin[n] but another generation (a stale reference to a freed and
+                         \* reused number, or a generation that never existed): it denotes null (7.3.10)
+  KeyByNumber,           \* mutation: trans keyed by the object number, the generation ignored
+  CryptProbeDirectOnly,  \* mutation: the probe for a leading /Crypt does not resolve an indirect first element
   StepBound
 
 Nodes == 1..N
 Unrevealed == [k |-> "?"]
+(* Copier.trans is keyed by the full reference (number and generation) *)
+TK(n) == IF KeyByNumber /\ n \in DOMAIN Twin THEN Twin[n] ELSE n
+IsTwin(n) == n \in DOMAIN Twin /\ Twin[n] # n
 
 VARIABLES
   g,      \* the source file, revealed so far
@@ -120,6 +130,7 @@ AsGraph(D) == [n \in DOMAIN D |-> [k |-> "val", v |-> D[n]]]
 (* container.go:streamCryptRecipe                                           *)
 Recipe(v) == IF SrcEnc = "none" THEN "verbatim"          \* cryptNone
              ELSE IF v.cf = "default" THEN "decrypt"      \* cryptDefault
+             ELSE IF CryptProbeDirectOnly /\ v.cfi THEN "decrypt"   \* (mutation) /Filter [n 0 R ...] not seen as /Crypt
              ELSE IF v.cf = "identity" THEN "verbatim"    \* cryptIdentity
              ELSE "unsupported"                           \* cryptUnsupportedCF
 
@@ -195,7 +206,7 @@ CallCopy(c) ==      \* Copy(v), v a direct object built by the caller
   /\ Tick /\ UNCHANGED <<g, ret, trans, ext, dst, next, puts, log, fail, phase>>
 
 CallCopyObj(c) ==   \* Copy(x) where x is the value of object n as the caller read it
-  /\ CanCall /\ c.op = "obj" /\ c.n \notin RedirSrc
+  /\ CanCall /\ c.op = "obj" /\ c.n \notin RedirSrc /\ ~IsTwin(c.n)
   /\ Adv(<<c.n>>, hi) # N + 1
   /\ \E kd \in (IF g[c.n].k = "?" THEN {x \in NodeKinds : x.k = "val"} ELSE {g[c.n]}) :
        /\ kd.k = "val" /\ kd.v.t # "z"
@@ -208,7 +219,7 @@ CallCopyObj(c) ==   \* Copy(x) where x is the value of object n as the caller re
 
 CallRedirect(c) ==  \* Redirect(n, x) with x an object the caller has put into the target
   /\ CanCall /\ c.op = "redirect" /\ NoCopyYet
-  /\ c.n \notin DOMAIN trans /\ g[c.n].k = "?"
+  /\ TK(c.n) \notin DOMAIN trans /\ g[c.n].k = "?" /\ ~IsTwin(c.n)
   /\ Adv(<<c.n>>, hi) # N + 1
   /\ \E kd \in {x \in NodeKinds : x.k = "val"} :
        /\ kd.v.t # "z"
@@ -216,7 +227,7 @@ CallRedirect(c) ==  \* Redirect(n, x) with x an object the caller has put into t
        /\ hi' = Adv(KindMentions(kd), Adv(<<c.n>>, hi))
        /\ g' = [g EXCEPT ![c.n] = kd]
   /\ dst' = (next :> Sc("n:Redirected")) @@ dst
-  /\ trans' = (c.n :> next) @@ trans
+  /\ trans' = (TK(c.n) :> next) @@ trans
   /\ ext' = ext \cup {<<c.n, next>>}
   /\ next' = next + 1
   /\ log' = Append(log, [call |-> c, res |-> Rf(next)])
@@ -250,15 +261,15 @@ CopyElemNested ==
   /\ Tick /\ UNCHANGED <<g, hi, ret, trans, ext, dst, next, puts, log, fail, phase>>
 
 CopyRefHit ==
-  /\ ElemReady /\ Elem.t = "r" /\ Elem.n \in DOMAIN trans
-  /\ Consume(Rf(trans[Elem.n]))
+  /\ ElemReady /\ Elem.t = "r" /\ TK(Elem.n) \in DOMAIN trans
+  /\ Consume(Rf(trans[TK(Elem.n)]))
   /\ Tick /\ UNCHANGED <<g, hi, ret, trans, ext, dst, next, puts, log, fail, phase>>
 
 CopyRefEnter ==
-  /\ ElemReady /\ Elem.t = "r" /\ Elem.n \notin DOMAIN trans
+  /\ ElemReady /\ Elem.t = "r" /\ TK(Elem.n) \notin DOMAIN trans
   /\ IF KeyByAsked
      THEN /\ next' = next + 1
-          /\ trans' = IF RecordAfter THEN trans ELSE (Elem.n :> next) @@ trans
+          /\ trans' = IF RecordAfter THEN trans ELSE (TK(Elem.n) :> next) @@ trans
           /\ stack' = Append(stack, [f |-> "ref", src |-> Elem.n, new |-> next, chain |-> <<Elem.n>>, cur |-> Elem.n, ph |-> "walk", obj |-> 0])
      ELSE /\ stack' = Append(stack, [f |-> "ref", src |-> Elem.n, new |-> 0, chain |-> <<Elem.n>>, cur |-> Elem.n, ph |-> "walk", obj |-> 0])
           /\ UNCHANGED <<next, trans>>
@@ -284,10 +295,11 @@ CopyDictDone ==
 (* ---- CopyReference below the trans lookup ---- *)
 InRef == Running /\ stack # <<>> /\ Top.f = "ref"
 ChainSet == {Top.chain[i] : i \in 1..Len(Top.chain)}
+ChainKeys == {TK(c) : c \in ChainSet}
 
 Reveal ==
   /\ InRef /\ Top.ph = "walk" /\ g[Top.cur].k = "?"
-  /\ \E kd \in NodeKinds :
+  /\ \E kd \in (IF IsTwin(Top.cur) THEN {[k |-> "dangling"]} ELSE NodeKinds) :
        /\ Adv(KindMentions(kd), hi) # N + 1
        /\ ~(kd.k = "ref" /\ kd.to \in RedirSrc)
        /\ hi' = Adv(KindMentions(kd), hi)
@@ -297,16 +309,16 @@ Reveal ==
 ResolveHop ==
   /\ InRef /\ Top.ph = "walk" /\ g[Top.cur].k = "ref"
   /\ LET m == g[Top.cur].to IN
-     IF ~KeyByAsked /\ m \in DOMAIN trans
+     IF ~KeyByAsked /\ TK(m) \in DOMAIN trans
      THEN \* property-demanded design: every reference on the chain is looked up and recorded
-          /\ trans' = [c \in ChainSet |-> trans[m]] @@ trans
-          /\ stack' = Below /\ ret' = Ret(Rf(trans[m]))
+          /\ trans' = [c \in ChainKeys |-> trans[TK(m)]] @@ trans
+          /\ stack' = Below /\ ret' = Ret(Rf(trans[TK(m)]))
           /\ UNCHANGED <<dst, next, puts>>
      ELSE IF m \in ChainSet
      THEN \* resolvePath: ErrCycle is a MalformedFileError, the value is null
           /\ LET d == IF Top.new = 0 THEN next ELSE Top.new IN
              /\ next' = IF Top.new = 0 THEN next + 1 ELSE next
-             /\ trans' = IF Top.new = 0 THEN [c \in ChainSet |-> d] @@ trans ELSE trans
+             /\ trans' = IF Top.new = 0 THEN [c \in ChainKeys |-> d] @@ trans ELSE trans
              /\ stack' = Below \o <<[Top EXCEPT !.ph = "put", !.new = d, !.obj = 0]>>
              /\ ret' = Ret(Nul)
           /\ UNCHANGED <<dst, puts>>
@@ -320,7 +332,7 @@ ResolveEnd ==    \* the chain ends: Copy(value), or null for a free / undefined 
          d == IF Top.new = 0 THEN next ELSE Top.new
          fr == [Top EXCEPT !.ph = "put", !.new = d, !.obj = IF g[Top.cur].k = "val" THEN Top.cur ELSE 0]
      IN /\ next' = IF Top.new = 0 THEN next + 1 ELSE next
-        /\ trans' = IF Top.new = 0 THEN [c \in ChainSet |-> d] @@ trans ELSE trans
+        /\ trans' = IF Top.new = 0 THEN [c \in ChainKeys |-> d] @@ trans ELSE trans
         /\ IF IsLeaf(v) THEN stack' = Below \o <<fr>> /\ ret' = Ret(v)
            ELSE stack' = Below \o <<fr>> \o FramesFor(v) /\ ret' = NoRet
   /\ Tick /\ UNCHANGED <<g, hi, ext, dst, puts, log, fail, phase>>
@@ -329,7 +341,7 @@ PutDst ==
   /\ InRef /\ Top.ph = "put" /\ ret.has
   /\ dst' = (Top.new :> ret.v) @@ dst
   /\ puts' = Append(puts, [src |-> Top.obj, d |-> Top.new])
-  /\ trans' = IF RecordAfter THEN (Top.src :> Top.new) @@ trans ELSE trans
+  /\ trans' = IF RecordAfter THEN (TK(Top.src) :> Top.new) @@ trans ELSE trans
   /\ stack' = Below /\ ret' = Ret(Rf(Top.new))
   /\ Tick /\ UNCHANGED <<g, hi, ext, next, log, fail, phase>>
 
@@ -369,7 +381,10 @@ StreamData ==
      ELSE /\ stack' = Below
           /\ ret' = Ret([t |-> "st", k |-> Top.res.k, e |-> Top.res.e, cf |-> Top.v.cf,
                          raw |-> [body |-> Top.v.body, spec |-> DeepSpec(g, Top.v),
-                                  plain |-> (SrcEnc = "none" \/ r = "decrypt" \/ Top.v.cf = "identity")]])
+                                  \* plaintext reaches the Writer iff the bytes were plaintext and are reused,
+                                  \* or were encrypted by the default filter and are decrypted
+                                  plain |-> (IF SrcEnc = "none" \/ Top.v.cf = "identity" THEN r = "verbatim"
+                                             ELSE r = "decrypt" /\ Top.v.cf = "default")]])
           /\ UNCHANGED fail
   /\ Tick /\ UNCHANGED <<g, hi, trans, ext, dst, next, puts, log, phase>>
 
